@@ -789,7 +789,8 @@ def c19_message_events(tier: str, r) -> List[Dict[str, Any]]:
     names = ['teamNS', 'teamEW', 'a', 'N/S', 'E/W : x', 'x. E/W', ' lead ', 'Teams : N/S',
              "O'Neil (2)", '12_k-a', '.e+-=', 'as North using', 'version 18', 'Two as one',
              'Bridge as Art', 'x as South using protocol version 17', ' as ', 'as', 'using protocol',
-             'N/S : a E/W : b', 'E/W', '. E/W : ']
+             'N/S : a E/W : b', 'E/W', '. E/W : ', 'Deep  Finesse', 'a   b', '  two leading', 'trailing  ',
+             'tab\there']
     for _ in range(40 if quick else 1500):
         names.append(''.join(r.choice(NAME_ALPHABET) for _ in range(r.randrange(1, 24))))
     for k, ns in enumerate(names):
